@@ -124,8 +124,8 @@ def run(cx):
             for si, st in enumerate(b.blocks[bi]['stmts']):
                 if st['pl']['p']:
                     continue
-                nm = b.local_name(st['pl']['l'])
-                if nm != 'i':
+                # a user variable of type usize (the walking index), whatever it is called
+                if not b.local_name(st['pl']['l']) or b.local_ty(st['pl']['l']) != 'usize':
                     continue
                 v = simplify(dag.rvalue(st['rv'], bi, si))
                 if v == ('const', 0):
@@ -257,7 +257,7 @@ def run_extra(cx):
             if bi not in b.reachable():
                 continue
             for si, st in enumerate(b.blocks[bi]['stmts']):
-                if b.local_name(st['pl']['l']) == 'max_circle' and not st['pl']['p']:
+                if not st['pl']['p'] and st['rv']['k'] == 'agg':      # whichever local holds the running thickest station
                     v = simplify(b.dag().rvalue(st['rv'], bi, si))
                     if match('(agg *Option::Some (0 (itervar (param stations))))', v) is not None:
                         g = [a for a, p in cx.guards(b, bi) if p and a[0] == 'lt']
